@@ -101,8 +101,8 @@ NOPS = B(3, 4)
 
 # ------------------------------------------------------------------------------------------------ op codes
 (UPSERT, STATUS, QUERY, DELETE, APPEND_EV, QUERY_EV, APPEND_TICK, GET_TICKS, STREAM_TICKS, LEGACY_CTX,
- S_SET, S_GET, S_SET_STATE, S_SEED_COPY, S_GET_STATE, S_CLEAR, S_SEED_MEM, S_GET_R1, S_SET_STATE_BAD) = range(19)
-NCODES = 19
+ S_SET, S_GET, S_SET_STATE, S_SEED_COPY, S_GET_STATE, S_CLEAR, S_SEED_MEM, S_GET_R1, S_SET_STATE_BAD, S_TYPED) = range(20)
+NCODES = 20
 FIRST_STATE_OP = S_SET            # op codes >= 10 go through a SqliteStateStore
 _R0_STATE = (S_SET, S_GET, S_SET_STATE, S_GET_STATE, S_CLEAR, S_SET_STATE_BAD)   # ... of run r0 (the object that may be reused)
 
@@ -129,6 +129,7 @@ class _Ctx:
         self.store = store
         self.reuse = reuse
         self.ss = None
+        self.untyped_r2 = None
 
     def state(self):
         if self.ss is None or not self.reuse:
@@ -186,6 +187,15 @@ def _apply(c: _Ctx, o: int, pos: int):
     if o == S_SET_STATE_BAD:  # an operation that FAILS in both modes (state of an unrelated type): what it leaves behind on the connection matters
         drive(c.state().set_state(_Unrelated(z=pos)))
         return None
+    if o == S_TYPED:
+        # the service first looks at a run's state through an UNTYPED store object (continuation read, legacy seeding) and keeps it
+        # alive; the run's adapter then asks for the store with the workflow's state type
+        if c.untyped_r2 is None:
+            c.untyped_r2 = st.create_state_store("r2")
+        ts = st.create_state_store("r2", _Unrelated)
+        drive(ts.set_state(_Unrelated(z=pos)))
+        got = drive(ts.get_state())
+        return (type(got).__name__, freeze(got.model_dump()))
     if o == S_SEED_COPY:     # a new run's state store seeded from run r0's row (what a continued / resumed run does)
         st.create_state_store("r1", serialized_state={"store_type": "sqlite", "run_id": "r0"}, serializer=JsonSerializer())
         return None
